@@ -247,7 +247,9 @@ class CaseTimeout(BaseException):  # not an Exception: must pass through `except
 
 
 class time_limit:
-    """wall-clock cap for one case (SIGALRM; the checks run in the main thread of a Unix process)"""
+    """cap on the CPU time (user+system, ITIMER_PROF) one case may consume — CPU time rather than wall time so
+    that a loaded machine cannot turn a slow case into an alarm; an endless loop still trips it
+    (the checks run in the main thread of a Unix process)"""
 
     def __init__(self, seconds: float):
         self.seconds = seconds
@@ -258,15 +260,15 @@ class time_limit:
         def handler(signum, frame):
             raise CaseTimeout(f"exceeded {self.seconds:.0f} s")
 
-        self.old = signal.signal(signal.SIGALRM, handler)
-        signal.setitimer(signal.ITIMER_REAL, self.seconds)
+        self.old = signal.signal(signal.SIGPROF, handler)
+        signal.setitimer(signal.ITIMER_PROF, self.seconds)
         return self
 
     def __exit__(self, *a):
         import signal
 
-        signal.setitimer(signal.ITIMER_REAL, 0)
-        signal.signal(signal.SIGALRM, self.old)
+        signal.setitimer(signal.ITIMER_PROF, 0)
+        signal.signal(signal.SIGPROF, self.old)
         return False
 
 
